@@ -211,6 +211,10 @@ func genKeys(rnd *rand.Rand, maxN int, shape string) ([]uint32, string) {
 	return keys, shape
 }
 
+// forcedEdgeDelta, if in [-1,1], fixes where a "width-edge-16M" table puts its last offset relative to 2^24
+// (the quick tier has only five such tables; both sides of the switch must be seen whatever the seed).
+var forcedEdgeDelta = 99
+
 var sizeProfiles = []string{"empty", "tiny", "tiny-nonempty", "mixed-empties", "medium", "width-edge", "large"}
 
 // genSizes returns the value size of every key. budget caps the total number of value bytes.
@@ -273,6 +277,9 @@ func genSizes(rnd *rand.Rand, n int, profile string, budget int, maxValue int) (
 			edges = []int{1 << 24}
 		}
 		target := edges[rnd.Intn(len(edges))] + rnd.Intn(3) - 1
+		if force16M && forcedEdgeDelta >= -1 && forcedEdgeDelta <= 1 {
+			target = 1<<24 + forcedEdgeDelta
+		}
 		// random split of target over the first n-1 values
 		cuts := make([]int, n-2)
 		for i := range cuts {
